@@ -305,7 +305,7 @@ void harness(void)
     if (KF_C02_erase_it_truncates != 1 || pos == size - 1) {
         __CPROVER_assert(v.m_size == size - 1, "value: erase(pos): size() shrinks by one");
         if (k < pos) __CPROVER_assert(ELEM_V(&v.m_data[k]) == old_k, "value: erase(pos): elements before pos keep their value and position");
-        if (k >= pos && k + 1 < size) __CPROVER_assert(ELEM_V(&v.m_data[k]) == old_k1, "value: erase(pos): elements after pos move down by one");
+        if (k >= pos && k < size - 1) __CPROVER_assert(ELEM_V(&v.m_data[k]) == old_k1, "value: erase(pos): elements after pos move down by one");
     }
     CANARY("erase(pos) end reachable");
 }
